@@ -1,3 +1,161 @@
 import Cppcms.Common
-/-! Line-protocol driver for C14 (stub: model not written yet). -/
-def main : IO Unit := Cppcms.lineLoop () (fun s _ => (s, "unimplemented"))
+import Cppcms.C14.Model
+import Cppcms.C14.Spec
+/-! Line-protocol driver for C14.  Plain lines evaluate the model; `J` lines evaluate the
+property predicate (definitions of `Spec.lean` only) on an output produced by the implementation. -/
+open Cppcms Cppcms.C14
+
+def outStr : Out → String
+  | .cp v => toString v
+  | .illegal => "ill"
+  | .incomplete => "inc"
+
+def outCode : Out → UInt64
+  | .cp v => v.toUInt64
+  | .illegal => 0xFFFFFFFF
+  | .incomplete => 0xFFFFFFFE
+
+/-- which decoder / mode: `c0` cppcms next html=false, `c1` html=true, `b` booster decode -/
+def runDec (which : String) (bs : Bytes) : Out × Bytes :=
+  if which == "c0" then Cms.next false bs
+  else if which == "c1" then Cms.next true bs
+  else Boost.decode bs
+
+def stepStr (which : String) (bs : Bytes) : String :=
+  let r := runDec which bs
+  s!"{outStr r.1} {bs.length - r.2.length}"
+
+@[inline] def mix (h x : UInt64) : UInt64 := (h ^^^ x) * 1099511628211
+
+/-- digests: `h1` over (value, consumed) of every result, `h2` over accepted results only
+(value and length; every rejection counts the same) — the latter is what `Spec` can predict -/
+structure Dig where
+  h1 : UInt64
+  h2 : UInt64
+
+@[inline] def stepDig (f : Bytes → Out × Bytes) (bs : Bytes) (len : Nat) (d : Dig) : Dig :=
+  let r := f bs
+  let cons := (len - r.2.length).toUInt64
+  let x1 := outCode r.1 * 8 + cons
+  let x2 := match r.1 with | .cp _ => x1 | _ => 0xFFFFFFFF * 8
+  ⟨mix d.h1 x1, mix d.h2 x2⟩
+
+def decoderOf (which : String) : Bytes → Out × Bytes :=
+  if which == "c0" then Cms.next false
+  else if which == "c1" then Cms.next true
+  else Boost.decode
+
+/-- the specification as a decoder: first `UTF8-char` of the ABNF, its scalar value, mode test.
+Rejections carry no position (the RFC does not define one). -/
+def specDecoder (html : Bool) (bs : Bytes) : Out × Bytes :=
+  match Spec.firstChar (Spec.nats bs) with
+  | some (cp, len) => if Spec.modeOk html cp then (.cp cp, bs.drop len) else (.illegal, bs)
+  | none => (.illegal, bs)
+
+def loop1 (f : Bytes → Out × Bytes) (pre : Bytes → Bytes) (len : Nat) : Nat → UInt8 → Dig → Dig
+  | 0, _, h => h
+  | n + 1, b, h => loop1 f pre len n (b + 1) (stepDig f (pre [b]) len h)
+
+def loop2 (f : Bytes → Out × Bytes) (pre : Bytes → Bytes) (len : Nat) : Nat → UInt8 → Dig → Dig
+  | 0, _, h => h
+  | n + 1, a, h => loop2 f pre len n (a + 1) (loop1 f (fun t => pre (a :: t)) len 256 0 h)
+
+/-- digest over all `256^k` continuations of `pre` (k = 1 or 2), in lexicographic order -/
+def digest (f : Bytes → Out × Bytes) (pre : Bytes) (k : Nat) : Dig :=
+  let d0 : Dig := ⟨14695981039346656037, 14695981039346656037⟩
+  if k == 1 then loop1 f (fun t => pre ++ t) (pre.length + 1) 256 0 d0
+  else loop2 f (fun t => pre ++ t) (pre.length + 2) 256 0 d0
+
+def fullBlock (which : String) (pre : Bytes) : String :=
+  String.intercalate "," ((List.range 65536).map fun i =>
+    stepStr which (pre ++ [UInt8.ofNat (i / 256), UInt8.ofNat (i % 256)]))
+
+def verdictStr : Verdict → String
+  | .ok v n => s!"{boolStr v} {n}"
+  | .external => "ext"
+
+def filtStr : FilterVerdict → String
+  | .done v none => s!"{boolStr v} same"
+  | .done v (some o) => s!"{boolStr v} {toHex o}"
+  | .external => "ext"
+
+def nm (b : Bytes) : List Nat := b.map (·.toNat)
+
+def bits (l : List Bool) : String := String.ofList (l.map fun b => if b then '1' else '0')
+
+/-- judge of one decoder step against RFC 3629 (Spec only) -/
+def judgeStep (html booster : Bool) (bs : Bytes) (val : String) (cons : Nat) : Bool :=
+  let ns := Spec.nats bs
+  match val.toNat? with
+  | some cp => decide (Spec.Rfc3629 cp (bs.take cons)) && Spec.modeOk html cp && cons ≤ bs.length
+  | none =>
+    match Spec.firstChar ns with
+    | none =>
+      -- booster: `inc` iff the input is a proper prefix of some well-formed character's shape is not
+      -- demanded by the property; only that no value is returned
+      val == "ill" || (booster && val == "inc")
+    | some (cp, _) => val == "ill" && !Spec.modeOk html cp
+
+def step (_ : Unit) (line : String) : Unit × String :=
+  let r : String :=
+    match words line with
+    | ["d", which, h] => match parseHex h with
+      | some s => stepStr which s | none => "bad-op"
+    | ["blk1", which, h] => match parseHex h with
+      | some s => let d := digest (decoderOf which) s 1; s!"{d.h1} {d.h2}" | none => "bad-op"
+    | ["blk2", which, h] => match parseHex h with
+      | some s => let d := digest (decoderOf which) s 2; s!"{d.h1} {d.h2}" | none => "bad-op"
+    -- the same digests predicted from `Spec` alone (only the second one is meaningful)
+    | ["J", "blk1", which, h] => match parseHex h with
+      | some s => toString (digest (specDecoder (which == "c1")) s 1).h2 | none => "bad-op"
+    | ["J", "blk2", which, h] => match parseHex h with
+      | some s => toString (digest (specDecoder (which == "c1")) s 2).h2 | none => "bad-op"
+    | ["full2", which, h] => match parseHex h with
+      | some s => fullBlock which s | none => "bad-op"
+    | ["v", html, h] => match parseHex h with
+      | some s => let r := validate (html == "1") s 0; s!"{boolStr r.1} {r.2}" | none => "bad-op"
+    | ["vu", h] => match parseHex h with
+      | some s => let r := validUtf8 s 0; s!"{boolStr r.1} {r.2}" | none => "bad-op"
+    | ["valid", n, h] => match parseHex n, parseHex h with
+      | some n, some s => verdictStr (valid (nm n) s) | _, _ => "bad-op"
+    | ["filt", n, rp, h] => match parseHex n, parseHex rp, parseHex h with
+      | some n, some [rp], some s => filtStr (validateOrFilter (nm n) s rp) | _, _, _ => "bad-op"
+    | ["sb256", n] => match parseHex n with
+      | some n => let t := getTester (nm n)
+                  bits ((List.range 256).map fun c => match validWith t [UInt8.ofNat c] with | .ok v _ => v | _ => false)
+      | none => "bad-op"
+    | ["sbpair", n, a] => match parseHex n, parseHex a with
+      | some n, some [a] => let t := getTester (nm n)
+                            String.intercalate "" ((List.range 256).map fun c =>
+          match validWith t [a, UInt8.ofNat c] with | .ok v k => s!"{boolStr v}{k}" | _ => "x")
+      | _, _ => "bad-op"
+    | ["known", n] => match parseHex n with
+      | some n => (match getTester (nm n) with | none => "0" | some _ => "1") ++ " " ++ boolStr (isUtf8 (nm n))
+      | none => "bad-op"
+    -- judges (Spec only)
+    | ["J", "d", which, h, val, cons] => match parseHex h, cons.toNat? with
+      | some s, some k => boolStr (judgeStep (which == "c1") (which == "b") s val k)
+      | _, _ => "bad-op"
+    | ["J", "v", html, h, ok, cnt] => match parseHex h, cnt.toNat? with
+      | some s, some k =>
+        (match Spec.wellFormedCount (html == "1") s with
+         | some n => boolStr (ok == "1" && k == n)
+         | none => boolStr (ok == "0"))
+      | _, _ => "bad-op"
+    | ["J", "filt8", rp, h, ok, out] => match parseHex rp, parseHex h with
+      -- filtering: reported valid iff HTML-safe well formed; otherwise the new text is HTML-safe well formed
+      | some [rp], some s =>
+        let wf := (Spec.wellFormedCount true s).isSome
+        if out == "same" then boolStr (ok == "1" && wf)
+        else (match parseHex out with
+          | some o => boolStr (ok == "0" && !wf &&
+              ((Spec.wellFormedCount true o).isSome || !(rp == 0 || (Spec.wellFormedCount true [rp]).isSome)))
+          | none => "bad-op")
+      | _, _ => "bad-op"
+    | ["J", "sb256", iso, bitsS] =>
+      boolStr (bitsS.length == 256 &&
+        (List.range 256).all fun c => Spec.byteDemands (iso == "1") (fun k => bitsS.toList.getD k '0' == '1') c)
+    | _ => "bad-op"
+  ((), r)
+
+def main : IO Unit := lineLoop () step
